@@ -3,7 +3,7 @@ CONSTANTS MaxPages = 6
  EndAt = "data"
  Lens = {1,4}
  Chunk = 4
- Read = 2
+ Reads = {2}
  BackUpRule = "begin"
  HandOver = "refetch"
 INVARIANT Terminates
